@@ -379,6 +379,13 @@ def cube(draw, ops=None):
     nnd = draw(st.integers(0, 6))
     for q in draw(st.lists(st.integers(0, ny * nx * nt - 1), min_size=nnd, max_size=nnd, unique=True)):
         vals[q] = -3000
+    if kind in ("rain", "rain_grp") or draw(st.booleans()):
+        # neighbouring pixels that agree on all but the first and last step (identical inside any inner window, different outside):
+        # whatever a kernel carries over from the pixel it processed before shows up here
+        for k in draw(st.lists(st.integers(0, ny * nx - 2), min_size=1, max_size=3, unique=True)):
+            vals[(k + 1) * nt:(k + 2) * nt] = vals[k * nt:(k + 1) * nt]
+            vals[(k + 1) * nt] = draw(st.sampled_from([0, -3000, 17, 8000]))
+            vals[(k + 2) * nt - 1] = draw(st.sampled_from([0, -3000, 23, 7000]))
     case = {"op": op, "shape": [ny, nx, nt], "values": vals, "dtype": draw(st.sampled_from(DTYPES[kind])), "nodata": -3000,
             "dims": list(draw(st.permutations(["time", "y", "x"]))), "cy": draw(st.sampled_from(["one", "ragged", "single"])),
             "cx": draw(st.sampled_from(["one", "ragged", "single"])), "sched": draw(st.sampled_from(["synchronous", "threads", "threads"])),
